@@ -97,10 +97,16 @@ func pickTrace(run *hx.Run, r *hx.Rng, i int) *Trace {
 	if i%3 == 2 {
 		n = 7
 	}
+	if i%10 == 9 {
+		n = []int{10, 13}[(i/10)%2] // large committees: more distinct signers per slot than any bounded per-id structure may assume
+	}
 	// a small pool of traces per run (real runs are expensive: BLS signing and verification)
 	pool := 10
 	if run.Tier == "thorough" {
 		pool = 60
+	}
+	if n >= 10 {
+		pool = pool/10 + 1 // real runs of 10 / 13 operators are the most expensive ones
 	}
 	j := r.Intn(pool)
 	jr := hx.NewRng(run.Seed*1000003 + uint64(j)*7919 + uint64(n))
@@ -113,6 +119,9 @@ func pickTrace(run *hx.Run, r *hx.Rng, i int) *Trace {
 	sc := scenarios[jr.Intn(len(scenarios))]
 	if n == 7 && jr.Chance(50) {
 		sc = scenarios[jr.Intn(3)]
+	}
+	if n >= 10 {
+		sc = scenarios[jr.Intn(3)] // fault-free scenarios: every operator sends in round 1
 	}
 	slot := uint64(baseSlot + 2*jr.Intn(12)) // even slots: the duty store holds proposer duties there
 	return traceFor(n, role, sc, slot, jr)
@@ -192,6 +201,9 @@ func genC09(run *hx.Run, r *hx.Rng) {
 		if i%5 == 3 {
 			subsetSeenDecided(run, r, i/5)
 		}
+		if i%20 == 7 {
+			largeCommitteeLimits(run, r, i/20)
+		}
 	}
 	topicSweep(run, r)
 	fuzzSetup()
@@ -262,14 +274,14 @@ func replay(run *hx.Run, lines []string) {
 		switch ws[0] {
 		case "reset":
 			n, fork := 4, false
-			if v, ok := kvOf(ws, "w"); ok && v == "7" {
-				n = 7
+			if v, ok := kvOf(ws, "w"); ok && (v == "7" || v == "10" || v == "13") {
+				fmt.Sscan(v, &n)
 			}
 			if v, ok := kvOf(ws, "fork"); ok && v == "1" {
 				fork = true
 			}
-			if v, ok := kvOf(ws, "own"); ok && v == "1" {
-				c = NewCaseWithStore(run, world(n), dutystore.New(), "replay")
+			if v, ok := kvOf(ws, "own"); ok && (v == "1" || v == "2") {
+				c = NewCaseWithStore(run, world(n), dutystore.New(), v == "2", "replay")
 			} else {
 				c = NewCase(run, world(n), fork, "replay")
 			}
@@ -317,6 +329,8 @@ func replay(run *hx.Run, lines []string) {
 			c.ValidateP2P(pdata, string(unhex(tp)), parseNow(ws), "replay")
 		case "e":
 			entryReplay(run, ws)
+		case "gc":
+			msgIDReplay(run, ws)
 		case "f":
 			fuzzReplay(run, ws)
 		case "k":
